@@ -104,6 +104,8 @@ fn show_err(e: &anyhow::Error) -> String {
             "extender"
         } else if msg.contains("exit code provided multiple times") {
             "exit-twice"
+        } else if msg.contains("exit code [") && msg.contains("is out of range") {
+            "exit-range"
         } else if msg.contains("exit code given") {
             "exit-no-shell"
         } else if msg.contains("no shell expression") {
@@ -131,7 +133,8 @@ struct ST {
 
 struct Spec {
     tests: Vec<ST>,
-    /// two exit codes below one command, or an expectation the maker rejects
+    /// two exit codes below one command, an exit code line whose number does not fit an i32, or
+    /// an expectation the maker rejects
     must_error: bool,
     /// indented non-command lines with no command before them in their block (the document must not parse)
     orphans: usize,
@@ -144,6 +147,13 @@ fn exit_code_of(body: &str) -> Option<i32> {
         return None;
     }
     inner.parse::<i32>().ok()
+}
+
+/// independent of the regex: the line has the form of an exit code line, "[" ASCII digits "]"
+/// (whether or not the number fits)
+pub fn exit_code_form(body: &str) -> bool {
+    let b = body.as_bytes();
+    b.len() >= 3 && b[0] == b'[' && b[b.len() - 1] == b']' && b[1..b.len() - 1].iter().all(|c| (b'0'..=b'9').contains(c))
 }
 
 /// `str::lines()` restated: split at LF, drop one CR before the LF
@@ -212,6 +222,10 @@ fn spec(mk: &ExpectationMaker, text: &str, indention: usize) -> Spec {
                     }
                     *has_code = true;
                     sp.tests[*t].code = Some(c);
+                } else if exit_code_form(body) {
+                    // an exit code that does not fit: an error (fix "exit code .. is out of range"),
+                    // never an output expectation
+                    sp.must_error = true;
                 } else {
                     if exp_fails(mk, body) {
                         sp.must_error = true;
@@ -289,12 +303,18 @@ fn case(mk: &Arc<ExpectationMaker>, prop: &str, text: &str, indention: usize, bu
                 }
             }
             let got: Vec<ST> = tests.iter().map(st_of).collect();
+            // direct: a body line `[digits]` is an exit code or an error, never an expectation
+            for g in &got {
+                for e in g.exps.iter().filter(|e| exit_code_form(e)) {
+                    fails.push(("C07:exit-code-out-of-range-becomes-expectation".into(), format!("{}: the test at line {} carries the expectation {:?}, which has the form of an exit code line (exit code of the test: {:?})", shown_doc(), g.line, e, g.code)));
+                }
+            }
             if sp.orphans > 0 {
                 // since fix 67abd12 an indented line that is not below a command is an error
                 let adopted = got.len() == sp.tests.len() && got.iter().zip(sp.tests.iter()).any(|(g, w)| g.code != w.code || g.exps != w.exps);
                 fails.push(("C07:orphan-line-accepted".into(), format!("{} parsed although {} indented line(s) are not below a command{}", shown_doc(), sp.orphans, if adopted { " (and a later test adopted them)" } else { "" })));
             } else if sp.must_error {
-                fails.push(("C07:missing-error".into(), format!("{} parsed although a test has two exit codes or an unparsable expectation", shown_doc())));
+                fails.push(("C07:missing-error".into(), format!("{} parsed although a test has two exit codes, an exit code out of range or an unparsable expectation", shown_doc())));
             } else if got.len() != sp.tests.len() {
                 fails.push(("C07:test-count".into(), format!("{}: {} tests, {} `$` lines", shown_doc(), got.len(), sp.tests.len())));
             } else {
@@ -342,6 +362,12 @@ fn case(mk: &Arc<ExpectationMaker>, prop: &str, text: &str, indention: usize, bu
 const FULL: &[&str] = &[
     "", " ", "  ", "   ", "T", "U", "# c", "  # c", "$ x", " $ x", "  $ x", "   $ x", "  $", "  $  x", "  > y", "  >y", "  out", "  out ", "   out", "  [1]",
     "  [2147483648]", "  [1] ", "  ( (re)",
+];
+/// the exit code lines around `i32::MAX` (with leading zeros, far beyond, beyond `u64`), among
+/// commands, continuations, expectations and block ends
+const EXITS: &[&str] = &[
+    "", "T", "  $ x", "  > y", "  out", "  [1]", "  [2147483647]", "  [2147483648]", "  [99999999999]", "  [0002147483647]", "  [0002147483648]",
+    "  [99999999999999999999]",
 ];
 const CORE: &[&str] = &["", "  ", "T", "U", "# c", "  $ x", "  > y", "  out", "  [1]", "  ( (re)"];
 
@@ -424,13 +450,13 @@ fn gen_ast(mk: &ExpectationMaker, rng: &mut Rng, indention: usize) -> Built {
                         continue;
                     }
                     if code.is_none() && rng.chance(1, 4) {
-                        let ds = rng.pick(&["0", "1", "007", "80", "255", "2147483647"]).to_string();
+                        let ds = rng.pick(&["0", "1", "007", "80", "255", "2147483647", "0002147483647"]).to_string();
                         lines.push(format!("{indent}[{ds}]"));
                         code = Some(ds.parse::<i32>().unwrap());
                         kinds.push("exit-code");
                     } else {
-                        let e = rng.pick(&["out", "out ", " out", "", " ", "  ", "\t", "> y", ">y", "$", "$x", "[1] ", " [1]", "[2147483648]", "[]", "[a]", "# not a comment", "foo (glob)", "a* (glob+)", "x (?)", "é ü", "( (re)"]).to_string();
-                        let bad = e.starts_with("$ ") || exit_code_of(&e).is_some() || exp_fails(mk, &e) || (first && e.starts_with("> "));
+                        let e = rng.pick(&["out", "out ", " out", "", " ", "  ", "\t", "> y", ">y", "$", "$x", "[1] ", " [1]", "[2147483648] (equal)", "[2147483648] ", "[]", "[a]", "# not a comment", "foo (glob)", "a* (glob+)", "x (?)", "é ü", "( (re)"]).to_string();
+                        let bad = e.starts_with("$ ") || exit_code_form(&e) || exp_fails(mk, &e) || (first && e.starts_with("> "));
                         if bad || (indention == 0 && (e.is_empty() || e.starts_with('#'))) {
                             continue;
                         }
@@ -463,7 +489,7 @@ fn gen_raw(rng: &mut Rng) -> String {
     let n = rng.range(0, 9);
     let mut s = String::new();
     for i in 0..n {
-        let l = if rng.chance(3, 4) { rng.pick(FULL).to_string() } else { format!("{}{}", rng.pick(&["", " ", "  ", "   ", "\t", "#"]), rng.pick(WORDS)) };
+        let l = if rng.chance(1, 10) { rng.pick(EXITS).to_string() } else if rng.chance(3, 4) { rng.pick(FULL).to_string() } else { format!("{}{}", rng.pick(&["", " ", "  ", "   ", "\t", "#"]), rng.pick(WORDS)) };
         s.push_str(&l);
         let last = i + 1 == n;
         match rng.below(12) {
@@ -491,6 +517,11 @@ pub fn run(ctx: &Ctx, prop: &str) {
     let total = count_upto(CORE.len() as u64, k_core);
     ctx.note(format!("exhaustive: all {} documents of at most {} lines over the {}-token core alphabet {:?}", total, k_core, CORE.len(), CORE));
     ctx.run_stream("lines-core-alphabet-exhaustive", total, true, |idx| Some(case(&mk, prop, &nth_doc(CORE, idx), 2, None, vec!["exhaustive-core".into()])));
+    // 2b. exit code lines at the edge of i32
+    let k_exit = if ctx.thorough { 5 } else { 4 };
+    let total = count_upto(EXITS.len() as u64, k_exit);
+    ctx.note(format!("exhaustive: all {} documents of at most {} lines over the {}-token exit code alphabet {:?}", total, k_exit, EXITS.len(), EXITS));
+    ctx.run_stream("lines-exit-code-range-exhaustive", total, true, |idx| Some(case(&mk, prop, &nth_doc(EXITS, idx), 2, None, vec!["exhaustive-exit-range".into()])));
     // 3. documents by construction
     let n = if ctx.thorough { 400_000 } else { 25_000 };
     ctx.run_stream("ast-documents-random", n, false, |idx| {
